@@ -339,10 +339,17 @@ def sliceOp (a lo hi : V ω) : X ω (V ω) :=
     -- a prefix `s[0:k]` of a text value (identifiers are carried as numbers; `nameTake` is their first `k` bytes)
     (match lo, hi with
      | .int 0, .int k => if 0 ≤ k then .ok (.str (nameTake s k.toNat)) else raiseX xUnsupported
+     | .int k, .none => if 0 ≤ k then .ok (.str (nameDrop s k.toNat)) else raiseX xUnsupported
      | _, _ => raiseX xUnsupported)
   | .none => raiseX xTypeError
   | .int _ => raiseX xTypeError
   | _ => raiseX xUnsupported
+
+/-- slicing a host object is the host's `index` with the pair of bounds as the key -/
+def sliceOpH (H : Host ω σ) (h : σ) (a lo hi : V ω) : X ω (V ω) :=
+  match a with
+  | .host o => H.index o (.tuple [lo, hi]) h
+  | a => sliceOp a lo hi
 
 /-- `bytes(iterable of ints)` -/
 def bytesOfInts : List (V ω) → X ω Bytes
@@ -369,6 +376,7 @@ def builtin (f : Name) (args : List (V ω)) (kw : List (Name × V ω)) : Option 
     | [.int _], [] => some (raiseX xTypeError)
     | [.bool _], [] => some (raiseX xTypeError)
     | [.py (.float _)], [] => some (raiseX xTypeError)
+    | [.host _], [] => Option.none                        -- a host object (a dictionary, …): the host knows its size
     | _, _ => some (raiseX xUnsupported)
   else if f = fBytes then
     match args, kw with
@@ -392,12 +400,40 @@ def builtin (f : Name) (args : List (V ω)) (kw : List (Name × V ω)) : Option 
       if t = tStr then some (.ok (.bool (match v with | .str _ => true | .ostr => true | .py (.str _) => true | _ => false)))
       else if t = tInt then some (.ok (.bool (match v with | .int _ => true | .bool _ => true | _ => false)))
       else if t = tBytes then some (.ok (.bool (match v with | .bytes _ => true | _ => false)))
+      else if t = tTuple then
+        -- `.tuple` stands for a Python tuple here; host objects answer for themselves
+        (match v with
+         | .tuple _ => some (.ok (.bool true))
+         | .host _ => Option.none
+         | .py _ => some (raiseX xUnsupported)
+         | _ => some (.ok (.bool false)))
+      else if t = tList then
+        (match v with
+         | .host _ => Option.none
+         | .py (.ints _) => some (.ok (.bool true))
+         | .tuple _ => some (raiseX xUnsupported)       -- some hosts carry lists as tuples: never guessed
+         | .py .other => some (raiseX xUnsupported)
+         | _ => some (.ok (.bool false)))
       else some (raiseX xUnsupported)
     | [_, .host _], [] => Option.none           -- a type (or tuple of types) that is a host object: the host decides
     | _, _ => some (raiseX xUnsupported)
   else if f = fInt then
     match args, kw with
     | [.hex b, .int 16], [] => some (if b.isEmpty then raiseX xValueError else .ok (.int (fromBE b : Int)))
+    | [.int i], [] => some (.ok (.int i))
+    | [.bool b], [] => some (.ok (.int (if b then 1 else 0)))
+    | [.py _], [] => Option.none                          -- `int(float)`, `int(text)`: the host's arithmetic
+    | [.host _], [] => Option.none
+    | _, _ => some (raiseX xUnsupported)
+  else if f = fSetLast then
+    -- `x[-1] = v` on a list carried as a tuple and rebound (the translator checks that no alias of the list is used)
+    match args, kw with
+    | [.tuple l, v], [] => some (if l.isEmpty then raiseX xIndexError else .ok (.tuple (l.dropLast ++ [v])))
+    | _, _ => some (raiseX xUnsupported)
+  else if f = fDropLast then
+    -- `x.pop()` (value discarded) on such a list
+    match args, kw with
+    | [.tuple l], [] => some (if l.isEmpty then raiseX xIndexError else .ok (.tuple l.dropLast))
     | _, _ => some (raiseX xUnsupported)
   else if f = xEOFError ∨ f = xTypeError ∨ f = xValueError ∨ f = xKeyError ∨ f = xStopIteration
           ∨ f = xUBXParseError ∨ f = xUBXMessageError ∨ f = xUBXTypeError ∨ f = xUBXStreamError then
@@ -553,7 +589,7 @@ mutual
         | (.ok vl, st'') =>
           match evalE H fuel hi st'' with
           | (.error x, st3) => (.error x, st3)
-          | (.ok vh, st3) => (sliceOp ve vl vh, st3)
+          | (.ok vh, st3) => (sliceOpH H st3.h ve vl vh, st3)
     | .tuple es, st =>
       match evalEs H fuel es st with
       | (.error x, st') => (.error x, st')
@@ -666,7 +702,16 @@ mutual
       | (.error err, st') => (.error err, st')
       | (.ok v, st') =>
         match iterOf v with
-        | Option.none => (raiseX xUnsupported, st')
+        | Option.none =>
+          (match v with
+           | .host _ =>
+             -- a host object is iterated through its `__iter__`, which must hand back the items as a tuple
+             (match H.mcall v mIter [] [] st'.h with
+              | (.ok (.tuple l), h') =>
+                forLoop (fun v s => execB H fuel body { s with vars := setVar s.vars x v }) l { st' with h := h' }
+              | (.ok _, h') => (raiseX xUnsupported, { st' with h := h' })
+              | (.error e, h') => (.error e, { st' with h := h' }))
+           | _ => (raiseX xUnsupported, st'))
         | some l => forLoop (fun v s => execB H fuel body { s with vars := setVar s.vars x v }) l st'
     | .while_ c body, st =>
       whileLoop (fun s => evalCond H fuel c s) (fun s => execB H fuel body s) fuel st
@@ -708,7 +753,14 @@ theorem execS_for (H : Host ω σ) (fuel : Nat) (x : Name) (it : E) (body : List
        | (.error err, st') => (.error err, st')
        | (.ok v, st') =>
          match iterOf v with
-         | Option.none => (raiseX xUnsupported, st')
+         | Option.none =>
+           (match v with
+            | .host _ =>
+              (match H.mcall v mIter [] [] st'.h with
+               | (.ok (.tuple l), h') => forLoop (forBody H fuel x body) l { st' with h := h' }
+               | (.ok _, h') => (raiseX xUnsupported, { st' with h := h' })
+               | (.error e, h') => (.error e, { st' with h := h' }))
+            | _ => (raiseX xUnsupported, st'))
          | some l => forLoop (forBody H fuel x body) l st') := by
   rw [execS]; rfl
 
@@ -911,9 +963,9 @@ theorem execB_step (H : Host ω σ) (fuel : Nat) (s : S) (ss : List S) (st st' :
 attribute [pyeval] execS_expr execS_assign execS_assignT execS_aug execS_setAttr execS_ret execS_raise execS_if
   execS_for execS_while execS_try execS_continue execS_break execS_pass execB_nil execB_one
   Bool.not_true Bool.not_false Int.cast_ofNat_Int
-  evalE evalEs evalCond setVar getVar getVar_setVar_same getVar_setVar_ne bindT binOp binInt asInt? cmpOp cmpOrd pyEq memTuple isNone truthy indexOp sliceOp boundOf pySlice_nonneg pySlice_tail2 pySlice_to_tail2
+  evalE evalEs evalCond setVar getVar getVar_setVar_same getVar_setVar_ne bindT binOp binInt asInt? cmpOp cmpOrd pyEq memTuple isNone truthy indexOp sliceOp sliceOpH boundOf pySlice_nonneg pySlice_tail2 pySlice_to_tail2
   builtin builtinMethod iterOf excCls kwArg normBound_nat normBound_nonneg normBound_none normBound_len_sub2
-  fLen fBytes fInt fIntFromBytes fIsinstance tStr tInt tBytes mHex kByteorder kSigned sLittle sBig
+  fLen fBytes fInt fIntFromBytes fIsinstance tStr tInt tBytes tTuple tList mIter fSetLast fDropLast mHex kByteorder kSigned sLittle sBig
   List.zip_cons_cons List.zip_nil_right List.zip_nil_left List.contains_cons List.contains_nil
   xEOFError xTypeError xValueError xKeyError xStopIteration xUBXParseError xUBXMessageError xUBXTypeError xUBXStreamError
   or_false false_or or_self or_true true_or and_true true_and and_false false_and raiseX ne_eq not_false_eq_true not_true_eq_false
